@@ -217,9 +217,32 @@ def gen(repo):
     de = cxxscan.function_body(esrc, "drainEvt")
     if not re.search(r"while\s*\(\s*::\s*read\s*\(\s*_eventFd\s*,[^;{]*?\)\s*>\s*0\s*\)", de) or "_cmdMutex" in de:
         raise TranslateError("drainEvt(): expected `while (::read(_eventFd, ...) > 0) {}` without taking _cmdMutex")
-    m_reg = re.search(r"addEpoll\s*\(\s*_eventFd\s*,\s*([^)]+?)\s*\)", esrc)
+    # start(): the eventfd is created, PUBLISHED in `_eventFd` together with the reopening of the queue (`_cmdsClosed = false`) in one
+    # `_cmdMutex` section, registered level-triggered, and only then the loop thread is created
+    st = cxxscan.function_body(esrc, "start", signature_contains="")
+    m_pub = re.search(r"\b_eventFd\s*=\s*(\w+)\s*;", st)
+    m_open = re.search(r"\b_cmdsClosed\s*=\s*false\s*;", st)
+    m_thr = re.search(r"\b_loop\s*=\s*std::thread\s*\(", st)
+    if not m_thr:
+        raise TranslateError("start(): the creation of the loop thread (`_loop = std::thread(`) was not found")
+    if m_pub and m_open:
+        efd_local = m_pub.group(1)
+        blk = _enclosing_block(st, m_pub.start())
+        same_block = blk[0] < m_open.start() < blk[1] and blk != (0, len(st))
+        pub_locked = same_block and _under_lock(st, r"\b_eventFd\s*=\s*\w+\s*;", "_cmdMutex", "start") and _under_lock(st, r"\b_cmdsClosed\s*=\s*false\s*;", "_cmdMutex", "start")
+        m_reg = re.search(r"addEpoll\s*\(\s*(?:%s|_eventFd)\s*,\s*([^)]+?)\s*\)" % re.escape(efd_local), st)
+        if not re.search(r"\b(?:const\s+)?int\s+%s\s*=\s*::\s*eventfd\s*\(" % re.escape(efd_local), st):
+            raise TranslateError("start(): `_eventFd = %s;` but `%s` is not the result of ::eventfd(...)" % (efd_local, efd_local))
+    else:
+        pub_locked = False      # the older shape: `_eventFd = ::eventfd(...)` assigned outside any lock
+        m_reg = re.search(r"addEpoll\s*\(\s*_eventFd\s*,\s*([^)]+?)\s*\)", st)
+        if not re.search(r"\b_eventFd\s*=\s*::\s*eventfd\s*\(", st):
+            raise TranslateError("start(): neither `_eventFd = <local>; _cmdsClosed = false;` nor `_eventFd = ::eventfd(...)` was recognised")
     if not m_reg:
-        raise TranslateError("the epoll registration of _eventFd (`addEpoll(_eventFd, EPOLLIN)`) was not found")
+        raise TranslateError("start(): the epoll registration of the eventfd (`addEpoll(efd, EPOLLIN)` / `addEpoll(_eventFd, EPOLLIN)`) was not found")
+    n_evt_reg = len(re.findall(r"addEpoll\s*\(\s*(?:efd|_eventFd)\b", esrc))
+    reg_before_thread = m_reg.start() < m_thr.start()
+    pub_before_reg = (m_pub.start() < m_reg.start()) if (m_pub and m_open) else True
 
     # ---- send(): callees and return statements (a delegation to a chunking helper changes both)
     KW = {"if", "while", "for", "switch", "return", "sizeof", "static_cast", "reinterpret_cast", "const_cast", "catch", "do"}
@@ -354,6 +377,11 @@ def gen(repo):
     t += "def processCallStatements : Nat := %d\n" % n_proc_calls
     t += "/-- the event mask `_eventFd` is registered with (no EPOLLET: level-triggered, reported while the counter is non-zero) -/\n"
     t += "def eventFdEpollMask : String := \"%s\"\n" % norm(m_reg.group(1))
+    t += "/-- `start()`: `_eventFd = <the fresh eventfd>` and `_cmdsClosed = false` lie in ONE block under a lock on `_cmdMutex` (a command is accepted only together with a valid descriptor); the descriptor is published before it is registered; the registration precedes the creation of the loop thread (a command written before the registration is not lost: the counter is a level); number of eventfd registrations in the engine -/\n"
+    t += "def startPublishesEventFdWithQueueReopenUnderCmdMutex : Bool := %s\n" % ("true" if pub_locked else "false")
+    t += "def startPublishesEventFdBeforeRegistration : Bool := %s\n" % ("true" if pub_before_reg else "false")
+    t += "def startRegistersEventFdBeforeLoopThread : Bool := %s\n" % ("true" if reg_before_thread else "false")
+    t += "def eventFdRegistrations : Nat := %d\n" % n_evt_reg
     t += "/-- `TcpEngine::send`: every callee (sorted, distinct) and the number of `return` statements -/\n"
     t += "def sendCallees : List String := %s\n" % _lean_strs(callees)
     t += "def sendReturnCount : Nat := %d\n" % n_ret_send
